@@ -95,12 +95,24 @@ def c07(res, tier, a):
         m.run(res, tier, sc, drv)
 
 
+def c05(res, tier, a):
+    from checks import c14 as m
+    m.run(res, tier, a, "C05")
+
+
+def c14(res, tier, a):
+    from checks import c14 as m
+    m.run(res, tier, a, "C14")
+
+
 def c17(res, tier, a):
     from checks import c17 as m
     m.run(res, tier, a)
 
 
 CHECKS = {
+    "C05": ("model_checking", c05),
+    "C14": ("model_checking", c14),
     "C17": ("model_checking", c17),
     "C04": ("model_checking", c04),
     "C06": ("model_checking", c06),
